@@ -13,8 +13,8 @@ ASSUMPTIONS = ["reference BIP32 in vf/ref/bip32.py, self-tested on BIP32 test ve
 NSHARDS = {"quick": 32, "thorough": 64}
 BUDGET_S = {"quick": 200, "thorough": 1800}
 MIN_HITS = {
-    "quick": {"chain": 150, "step_hardened": 300, "step_normal": 300, "step_path": 150, "pub_derive": 200, "pub_hardened_refused": 100, "corrupt": 3000, "odd_seed": 40},
-    "thorough": {"chain": 3000, "step_hardened": 6000, "step_normal": 6000, "step_path": 3000, "pub_derive": 4000, "pub_hardened_refused": 2000, "corrupt": 80000, "odd_seed": 800, "depth255": 4},
+    'quick': {"chain": 150, "step_hardened": 300, "step_normal": 300, "step_path": 150, "pub_derive": 200, "pub_hardened_refused": 100, "corrupt": 3000, "odd_seed": 40},
+    'thorough': {"chain": 23049, "step_hardened": 17694, "step_normal": 22686, "step_path": 26070, "pub_derive": 36252, "pub_hardened_refused": 10393, "corrupt": 920678, "odd_seed": 6936, "depth255": 9},
 }
 IDX = [0, 1, 2, 2**31 - 2, 2**31 - 1, 2**31, 2**31 + 1, 2**32 - 1]
 
@@ -41,7 +41,7 @@ def path_str(r, idxs):
 def cases(ctx):
     r = ctx.rnd
     t = ctx.tier == "thorough"
-    for i in range(600 if t else 16):
+    for i in range(2500 if t else 16):
         sl = r.choice([16, 17, 24, 32, 33, 48, 63, 64]) if r.random() < 0.7 else r.choice([1, 15, 65, 128, 1000])
         seed = gen.rbytes(r, sl)
         steps = []
@@ -67,7 +67,7 @@ def cases(ctx):
                 yield {"k": "chain", "seed": seed.hex(), "steps": steps, "neuter_at": 300, "deep": True}
                 idxs = [r.getrandbits(32) for _ in range(255)]
                 yield {"k": "chain", "seed": seed.hex(), "steps": [{"path": path_str(r, idxs), "idxs": idxs}], "neuter_at": 300, "deep": True}
-    for i in range(100 if t else 2):
+    for i in range(400 if t else 2):
         seed = gen.rbytes(r, 32)
         m = bip32.master(seed)
         if m is None:
